@@ -20,7 +20,7 @@ pub fn def() -> PropDef {
     PropDef {
         id: "C13",
         level: "model_checking",
-        rule: "(a) every sequence of length <= d over {remote insert of an entry of a two-author universe, remove-and-recreate the document, ask for the heads and a news verdict}; after the last step get_latest_for_each_author and has_news_for_us(h) for every peer report h in {absent,0,T1,T2,T3}^2 x {no third author, an author never seen whose id sorts before / between / after the two x timestamp 0,T1,T3} are compared with the heads of the reference replica; (b) AuthorHeads::encode/decode for every set of <= 4 authors with timestamps from {0,1,2,127,128,16383,16384} (equal timestamps included) under every size limit from 1 to unlimited length + 1 and without limit, plus one set of 200 heads (the length prefix of the encoding grows to two bytes at 128) under every limit in the window that keeps 120..136 heads; (c) the head set as a data structure: every sequence of <= 4 inserts over 3 authors x timestamps {0,1,2,u64::MAX}: get/len/iter equal the per-author maximum, and for every split of the sequence into two sets merge is the pointwise maximum, has_news_for counts exactly the strictly newer or unknown authors, encode/decode returns the set; (d) a neighbour's sync report delivered to an idle real LiveActor (on_actor_message -> on_sync_report) for 3 document states x {absent,0,T1,T2,T3}^2 reports x {synced, unsynced document} leads to a dial exactly when it is news, also when the neighbour repeats it after the dial it caused was lost; (e) five complete sessions between the real initiator loop and the real acceptor loop (run_alice / BobState::run over in-memory pipes, among them one with 450 entries per side over pipes smaller than a frame): per author, the head each side reports as received is at least the newest entry that entered from the peer and at most the peer's newest; non-trivial (a) = the sequence holds two entries of one author with different timestamps or a removal after an insert, (b) = at least two authors",
+        rule: "(a) every sequence of length <= d over {remote insert of an entry of a two-author universe, remove-and-recreate the document, ask for the heads and a news verdict}; after the last step get_latest_for_each_author and has_news_for_us(h) for every peer report h in {absent,0,T1,T2,T3}^2 x {no third author, an author never seen whose id sorts before / between / after the two x timestamp 0,T1,T3} are compared with the heads of the reference replica; (b) AuthorHeads::encode/decode for every set of <= 4 authors with timestamps from {0,1,2,127,128,16383,16384} (equal timestamps included) under every size limit from 1 to unlimited length + 1 and without limit, plus one set of 200 heads (the length prefix of the encoding grows to two bytes at 128) under every limit in the window that keeps 120..136 heads; (c) the head set as a data structure: every sequence of <= 4 inserts over 3 authors x timestamps {0,1,2,u64::MAX}: get/len/iter equal the per-author maximum, and for every split of the sequence into two sets merge is the pointwise maximum, has_news_for counts exactly the strictly newer or unknown authors, encode/decode returns the set; (d) a neighbour's sync report delivered to an idle real LiveActor (on_actor_message -> on_sync_report) for 3 document states x {absent,0,T1,T2,T3}^2 reports x {synced, unsynced document} leads to a dial exactly when it is news, also when the neighbour repeats it after the dial it caused was lost, and when it arrives after a completed session in which the peer had already named the same heads without any of those entries entering the replica; (e) five complete sessions between the real initiator loop and the real acceptor loop (run_alice / BobState::run over in-memory pipes, among them one with 450 entries per side over pipes smaller than a frame): per author, the head each side reports as received is at least the newest entry that entered from the peer and at most the peer's newest; non-trivial (a) = the sequence holds two entries of one author with different timestamps or a removal after an insert, (b) = at least two authors",
         assumptions: &[
             "size limit 0 is excluded: no postcard sequence fits into zero bytes",
             "where several keys attain an author's maximal timestamp any of them is accepted as the head's key",
@@ -510,6 +510,26 @@ fn check_engine_reports(report: &mut Report) {
                     report.traces += 1;
                     report.transitions += 1;
                     let case = json!({"engine_report": {"extra": extra, "ns": report_ns, "heads": heads}});
+                    // (the same report once more after a completed session in which the peer had
+                    // already named these heads although nothing of it entered the replica)
+                    if report_ns == 0 && !heads.is_empty() {
+                        report.evaluations += 1;
+                        let case2 = json!({"engine_report": {"extra": extra, "ns": report_ns, "heads": heads, "after_session": true}});
+                        match catch(|| super::c11::sync_report_dials_after(extra, report_ns, &heads, true)) {
+                            Err(p) => report.violation("no_panic", json!({"engine": true}), case2, format!("panic: {p}"), 0),
+                            Ok((dialed, _, held)) => {
+                                let mut ours: BTreeMap<AuthorId, u64> = BTreeMap::new();
+                                for (a, t) in held {
+                                    let e = ours.entry(a).or_insert(0);
+                                    *e = (*e).max(t);
+                                }
+                                let news = heads.iter().any(|(a, t)| ours.get(&author_id(*a)).map(|o| t > o).unwrap_or(true));
+                                if dialed != news {
+                                    report.violation("engine_dials_exactly_on_news", json!({"dialed": dialed, "after_session": true}), case2, format!("report {heads:?} arriving after a completed session in which the peer had named the same heads (none of those entries entered the replica), document holds heads {:?}: dialed={dialed}, news={news}", ours.values().collect::<Vec<_>>()), 0);
+                                }
+                            }
+                        }
+                    }
                     match catch(|| super::c11::sync_report_dials(extra, report_ns, &heads)) {
                         Err(p) => report.violation("no_panic", json!({"engine": true}), case, format!("panic: {p}"), 0),
                         Ok((dialed, dialed_again, held)) => {
@@ -720,9 +740,11 @@ fn replay(case: &Value) -> anyhow::Result<(bool, String)> {
         let extra: Vec<Spec> = serde_json::from_value(h["extra"].clone())?;
         let heads: Vec<(u8, u64)> = serde_json::from_value(h["heads"].clone())?;
         let nsx = h["ns"].as_u64().unwrap_or(0) as u8;
-        return match catch(|| super::c11::sync_report_dials(&extra, nsx, &heads)) {
+        let after = h.get("after_session").and_then(|a| a.as_bool()).unwrap_or(false);
+        return match catch(|| super::c11::sync_report_dials_after(&extra, nsx, &heads, after)) {
             Err(p) => Ok((true, format!("panic: {p}"))),
             Ok((dialed, dialed_again, held)) => {
+                let dialed_again = if after { dialed } else { dialed_again };
                 let mut ours: BTreeMap<AuthorId, u64> = BTreeMap::new();
                 for (a, t) in held {
                     let e = ours.entry(a).or_insert(0);
